@@ -9,6 +9,7 @@ import math
 
 from mc import families as F
 from mc import gf2
+from mc import session
 
 PROPERTY = 'C17'
 LEVEL = 'exploration'
@@ -35,7 +36,10 @@ def cases(tier, seed):
     b = BOUNDS[tier]
     cfgs = F.configs(b['max_n'], F.CLASSES_2D, l_max=b['l_max_2d'], deformed=False) + \
         F.configs(b['max_n'], F.CLASSES_3D, l_max=b['l_max_3d'], deformed=False)
-    return [dict(c, cap=b['cap']) for c in cfgs]
+    out = [dict(c, cap=b['cap']) for c in cfgs]
+    out += [{'part': 'session', 'cfgs': [dict(c, cap=min(b['cap'], 60000)) for c in seq]}
+            for seq in session.interleave_by_size(out, 3)]
+    return out
 
 
 def table_size(n, A, per_qubit):
@@ -82,6 +86,8 @@ def search(cols_list, n, m, A, d):
 
 
 def eval_case(cfg):
+    if cfg.get('part') == 'session':
+        return session.run(cfg['cfgs'], eval_case, F.cfg_label)
     res = {'evals': 0, 'nontrivial': 0, 'violations': [], 'outcomes': [], 'samples': [], 'extra': {}}
     if F.known_invalid(cfg):
         res['skipped'] = 1
